@@ -130,6 +130,9 @@ def family(tier, seed):
         runs.append({"reservoir": res_, "table": tab_, "table_params": (None if tab_ == "ideal" else table_params(tab_)), "p_i": 8000.0, "p_f": 4000.0, "ratio": 0.5, "nx": 10,
                      "grid": {"kind": "tinysteps"}, "schedule": {"kind": "constant"}})
     runs += row_order_runs(seed)
+    for res_, tab_, sched in (("ideal", "ideal", "constant"), ("single", "gas", "constant"), ("single", "syn_kinked", "stepdown")):
+        runs.append({"reservoir": res_, "table": tab_, "table_params": (None if tab_ == "ideal" else table_params(tab_)), "p_i": 8000.0, "p_f": 4000.0, "ratio": 0.5, "nx": 30,
+                     "grid": {"kind": "offset"}, "schedule": {"kind": sched, "seed": seed, "levels": 4, "hold": 3}})
     for n, (nx, grid) in enumerate(itertools.product(NXS, grids)):
         runs.append({"reservoir": "ideal", "table": "ideal", "table_params": None, "p_i": 8000.0, "p_f": 4000.0, "ratio": 0.5, "nx": nx,
                      "grid": {"kind": grid, "nt": nt, "t_end": 5.0, "seed": seed * 100043 + n}, "schedule": {"kind": "constant"}})
